@@ -48,6 +48,9 @@ partial def loop (ck : Checker) (h : IO.FS.Stream) (out : IO.FS.Stream)
         tot := { tot with diffs := tot.diffs + 1 }
         dead := true
     | none => pure ()
+    match r.note with
+    | some k => out.putStrLn s!"NOTE case={caseId} line={lineNo} key={k}"
+    | none => pure ()
     -- a panic of the real code is a concrete failing input for every property
     let mon := if impl.startsWith "PANIC" then some ("panic", impl) else r.monitor
     match mon with
